@@ -333,7 +333,9 @@ class Exec:
             return mk_py(o)
         if isinstance(o, types.FunctionType):
             mod = o.__module__
-            return mk_py(RepoFunc(mod, o.__qualname__))
+            if _is_repo_module(mod):
+                return mk_py(RepoFunc(mod, o.__qualname__))
+            return mk_py(o)
         if isinstance(o, type) and getattr(o, "__module__", "") not in ("builtins",):
             return mk_py(o)
         if isinstance(o, (bool, int, str, float, type(None))):
@@ -940,9 +942,13 @@ class Exec:
         arr = self.heap_get(st, fi.name)
         raw = simp(z3.Select(arr, obj.t))
         val = self.typed(ctx, st, raw, fi.type, fi.cls, assume=True, why=f"field-type:{fi.name}:{fi.type}")
-        if fi.inv and not st.ghost.get("$spec"):
+        if fi.inv and fi.name not in _INV_ACTIVE:
             from . import calls
-            c = calls.eval_spec_bool(self, ctx, st, self.reg.invariants[fi.name], [obj, val])
+            _INV_ACTIVE.add(fi.name)
+            try:
+                c = calls.eval_spec_bool(self, ctx, st, self.reg.invariants[fi.name], [obj, val])
+            finally:
+                _INV_ACTIVE.discard(fi.name)
             ctx.assume(c, f"invariant:{fi.name}")
         return val
 
@@ -974,7 +980,7 @@ class Exec:
         bv = box(v)
         if fi.kind == "inv" and fi.inv:
             from . import calls
-            c = calls.eval_spec_bool(self, ctx, st, self.reg.invariants[fi.name], [obj, v])
+            c = calls.eval_spec_bool(self, ctx, st, self.reg.invariants[fi.name], [obj, v], as_goal=True)
             ctx.oblige(f"{st.frames[-1].fname}#inv:{attr}", c,
                        {"kind": "invariant-write", "line": getattr(node, "lineno", None)})
         wl = st.ghost.get("$write_log")
@@ -1078,6 +1084,25 @@ class Exec:
     def to_str(self, ctx, st, v, node):
         from . import strings
         return strings.to_str(self, ctx, st, v, node)
+
+
+_INV_ACTIVE = set()
+
+
+_repo_mod_memo = {}
+
+
+def _is_repo_module(mod):
+    r = _repo_mod_memo.get(mod)
+    if r is None:
+        import sys as _sys
+        from .extract import REPO
+        m = _sys.modules.get(mod)
+        f = getattr(m, "__file__", "") or ""
+        import os as _os
+        r = mod.startswith("contracts") or _os.path.realpath(f).startswith(_os.path.realpath(REPO) + _os.sep)
+        _repo_mod_memo[mod] = r
+    return r
 
 
 class ExcValue:
